@@ -150,11 +150,12 @@ Definition rel_diff_R (x y : R) : R :=
 
 Lemma rel_diff_RO : forall x y, rel_diff RO x y = rel_diff_R x y.
 Proof.
-  intros. unfold rel_diff, rel_diff_R, fmin, is_nan. cbn [eqb abs sub div ltb RO zero one]. unfold Reqb.
+  intros. unfold rel_diff, rel_diff_R, is_infinite, fmin, is_nan. cbn [eqb abs sub div neg ltb RO zero one]. unfold Reqb.
   destruct (Req_EM_T x 0); auto. destruct (Req_EM_T y 0); auto.
-  (* the guard [diff == 1 / 0]: on the reals 1 / 0 = 0 ([Rinv_0]), so it fires only for x = y, where the quotient is 0 too *)
+  (* the guard [diff == 1 / 0 | diff == -(1 / 0)]: on the reals 1 / 0 = 0 ([Rinv_0]), so it fires only for x = y, where the quotient is 0 too *)
   assert (E10 : 1 / 0 = 0) by (unfold Rdiv; rewrite Rinv_0; ring). rewrite E10.
-  destruct (Req_EM_T (Rabs (x - y)) 0) as [E0|E0].
+  replace (- 0) with 0 by ring.
+  destruct (Req_EM_T (Rabs (x - y)) 0) as [E0|E0]; cbn [orb].
   { rewrite E0. unfold Rdiv. rewrite Rmult_0_l. reflexivity. }
   destruct (Req_EM_T (Rabs x) (Rabs x)); [|congruence]. destruct (Req_EM_T (Rabs y) (Rabs y)); [|congruence].
   cbn [negb]. f_equal. unfold Rltb, Rmin. destruct (Rlt_dec (Rabs y) (Rabs x)), (Rle_dec (Rabs x) (Rabs y)); lra.
